@@ -72,6 +72,8 @@ type Policy struct {
 	FailBudget int     // total failures still allowed (finite failure sequences)
 	PQueueFull float64 // synchronous refusal in Dispatch
 	CQShuffle  bool
+	PHoldCQ    float64 // probability that a completion is held back for 1..MaxHold further ticks
+	MaxHold    int
 	PSendFalse float64 // hand-off reported unsuccessful
 	PSendErr   float64 // hand-off error
 	PSendFull  float64 // plugin queue full
@@ -402,9 +404,23 @@ func (s *Sim) Drain(dt int64, max int) bool {
 type advAIO struct {
 	sim     *Sim
 	pending []*pendSQE
-	cq      []*bus.CQE[t_aio.Submission, t_aio.Completion]
+	cq      []*heldCQE
 	seq     int
 	dead    bool
+}
+
+type heldCQE struct {
+	c     *bus.CQE[t_aio.Submission, t_aio.Completion]
+	ready int // first tick number at which the kernel may see it
+}
+
+func (a *advAIO) push(c *bus.CQE[t_aio.Submission, t_aio.Completion]) {
+	s := a.sim
+	h := &heldCQE{c: c, ready: s.tickNo + 1}
+	if s.pol.PHoldCQ > 0 && s.r.Float64() < s.pol.PHoldCQ {
+		h.ready += 1 + s.r.Intn(max(1, s.pol.MaxHold))
+	}
+	a.cq = append(a.cq, h)
 }
 
 func (a *advAIO) String() string        { return "advAIO" }
@@ -435,6 +451,9 @@ func (a *advAIO) EnqueueSQE(sqe *bus.SQE[t_aio.Submission, t_aio.Completion]) {
 		pol.FailBudget--
 		s.failures++
 		a.markUncertain(p)
+		if sqe.Submission.Kind == t_aio.Router {
+			s.mon.routerFailed[sqe.Submission.Router.Promise.Id] = true
+		}
 		s.logf("AIO  refuse(queue full) %s %s", p.ReqId(), subString(sqe.Submission))
 		sqe.Callback(nil, t_api.NewError(t_api.StatusAIOSubmissionQueueFull, nil))
 		return
@@ -444,16 +463,27 @@ func (a *advAIO) EnqueueSQE(sqe *bus.SQE[t_aio.Submission, t_aio.Completion]) {
 }
 
 func (a *advAIO) EnqueueCQE(cqe *bus.CQE[t_aio.Submission, t_aio.Completion]) {
-	a.cq = append(a.cq, cqe)
+	a.push(cqe)
 }
 
+// DequeueCQE hands over at most n completions that are ready. In class
+// "fifo" the completion queue is a strict queue (a held head holds
+// everything behind it); otherwise any ready completion may overtake.
 func (a *advAIO) DequeueCQE(n int) []*bus.CQE[t_aio.Submission, t_aio.Completion] {
-	k := n
-	if k > len(a.cq) {
-		k = len(a.cq)
+	var out []*bus.CQE[t_aio.Submission, t_aio.Completion]
+	var rest []*heldCQE
+	blocked := false
+	for _, h := range a.cq {
+		if len(out) < n && !blocked && h.ready <= a.sim.tickNo {
+			out = append(out, h.c)
+			continue
+		}
+		if a.sim.pol.Class == "fifo" {
+			blocked = true
+		}
+		rest = append(rest, h)
 	}
-	out := a.cq[:k]
-	a.cq = a.cq[k:]
+	a.cq = rest
 	return out
 }
 
@@ -588,7 +618,7 @@ func (a *advAIO) Flush(t int64) {
 			s.failures++
 			a.markUncertain(p)
 			s.logf("AIO  pre-fail #%d %s", p.seq, p.ReqId())
-			a.cq = append(a.cq, &bus.CQE[t_aio.Submission, t_aio.Completion]{Id: p.sqe.Id, Callback: p.sqe.Callback, Error: errors.New("injected failure before processing")})
+			a.push(&bus.CQE[t_aio.Submission, t_aio.Completion]{Id: p.sqe.Id, Callback: p.sqe.Callback, Error: errors.New("injected failure before processing")})
 			continue
 		}
 		if forced[p] == "post" {
@@ -641,7 +671,7 @@ func (a *advAIO) Flush(t int64) {
 				c.Completion = nil
 				c.Error = errors.New("injected failure after processing")
 			}
-			a.cq = append(a.cq, c)
+			a.push(c)
 		}
 		if pol.CQShuffle {
 			sub := a.cq[first:]
@@ -670,7 +700,7 @@ func (a *advAIO) processOther(p *pendSQE) {
 			s.failures++
 			s.mon.routerFailed[p.sqe.Submission.Router.Promise.Id] = true
 			s.logf("AIO  router-fail %s", p.ReqId())
-			a.cq = append(a.cq, &bus.CQE[t_aio.Submission, t_aio.Completion]{Id: p.sqe.Id, Callback: p.sqe.Callback, Error: errors.New("injected router failure")})
+			a.push(&bus.CQE[t_aio.Submission, t_aio.Completion]{Id: p.sqe.Id, Callback: p.sqe.Callback, Error: errors.New("injected router failure")})
 			return
 		}
 		cqes := s.router.Process([]*bus.SQE[t_aio.Submission, t_aio.Completion]{p.sqe})
@@ -678,7 +708,7 @@ func (a *advAIO) processOther(p *pendSQE) {
 			if c.Completion != nil && c.Completion.Router != nil {
 				s.logf("AIO  router %s matched=%v recv=%s", p.ReqId(), c.Completion.Router.Matched, c.Completion.Router.Recv)
 			}
-			a.cq = append(a.cq, c)
+			a.push(c)
 		}
 	case t_aio.Sender:
 		before := len(s.sent)
